@@ -172,6 +172,8 @@ pub fn prop() -> HistProp {
     w.oracle = 3;
     w.deposit = 2;
     w.withdraw = 2;
+    // the pauser edits the whitelist in between (it exempts from caps, not from this rule)
+    w.whitelist = 3;
     HistProp {
         id: "C16",
         level: "exploration",
